@@ -444,6 +444,19 @@ func (s *Srv) FacLen(name string) int {
 	return v
 }
 
+// FacFill submits n fresh dummy values to the model's replay filter at nowNs; returns its size.
+func (s *Srv) FacFill(name string, nowNs int64, n int) (int, string) {
+	f := s.call("fac.fill %s %d %d", name, nowNs, n)
+	if len(f) != 3 || f[0] != "ok" {
+		return -1, strings.Join(f, " ")
+	}
+	v, err := strconv.Atoi(f[1])
+	if err != nil {
+		return -1, strings.Join(f, " ")
+	}
+	return v, f[2]
+}
+
 // ModelRun is the model's account of one WrapConn call.
 type ModelRun struct {
 	OK       bool
